@@ -109,7 +109,7 @@ fn show_bindings(res: &[HashMap<String, u32>]) -> String {
         .iter()
         .map(|b| {
             let m: BTreeMap<&String, &u32> = b.iter().collect();
-            m.iter().map(|(k, x)| format!("{}={}", k, x)).collect::<Vec<_>>().join(",")
+            if m.is_empty() { "T".to_string() } else { m.iter().map(|(k, x)| format!("{}={}", k, x)).collect::<Vec<_>>().join(",") }
         })
         .collect();
     v.sort();
